@@ -1,4 +1,5 @@
-//! The three scalars the crate's generic code is instantiated at.
+//! The scalars the crate's generic code is instantiated at: f64, f32, the exact rational Q and the
+//! coarse float Lo (10-bit significand).
 
 use crate::q::Q;
 use num::Float;
@@ -59,6 +60,24 @@ impl Scalar for f32 {
     }
     fn same(self, o: f32) -> bool {
         self.to_bits() == o.to_bits()
+    }
+}
+
+impl Scalar for crate::lo::Lo {
+    const NAME: &'static str = "Lo (10-bit significand)";
+    const EXACT: bool = false;
+    const EPS: f64 = 0.001953125;
+    fn of(x: f64) -> Self {
+        crate::lo::Lo(crate::lo::round(x))
+    }
+    fn f(self) -> f64 {
+        self.0
+    }
+    fn key(self) -> String {
+        format!("{:?}", self.0)
+    }
+    fn same(self, o: Self) -> bool {
+        self.0.to_bits() == o.0.to_bits()
     }
 }
 
